@@ -144,8 +144,14 @@ def run_source(src, names, case):
     def pre_builtin(name, args):
         if name in ADDERS and args and type(args[0]) in (list, dict) and len(args[0]) >= CAP:
             c = args[0]
-            adding = name in ('push', 'insert')
-            if name == '__setitem__' and type(c) is dict and len(args) > 1:
+            # only a well-formed call is an element-adding operation (a wrong number of arguments fails before anything is added)
+            adding = (name == 'push' and len(args) == 2) or (name == 'insert' and len(args) == 3)
+            if name == 'insert' and adding:
+                try:
+                    int(args[1])
+                except Exception:  # noqa
+                    adding = False
+            if name == '__setitem__' and type(c) is dict and len(args) == 3:
                 try:
                     adding = str(args[1]) not in c
                 except Exception:  # noqa
@@ -297,13 +303,58 @@ def cases(draw):
     return {'src': '\n'.join(steps), 'lens': lens, 'excluded': excluded}
 
 
+# builtin sweep: every entry of the LIVE function table applied to near-cap containers and to each other's results
+SWEEP_VARS = ['L', 'D', 'S', 'HL', 'HS', 'N', 'DN', 'K2', 'M']
+SWEEP_SCALARS = ['0', '1', '2', '","', '"a"', '""', 'True', 'None', 'v => v', '(a, b) => a + b', 'v => [v, v]', '(k, v) => [k, v]', 'v => True',
+                 '[1, 2]', '{"p": 1}', '-1', '1.5']
+
+
+@hst.composite
+def sweep_cases(draw, table):
+    n = lambda k: draw(hst.integers(0, k - 1))  # noqa
+    pick = lambda xs: xs[n(len(xs))]  # noqa
+    big = lambda: pick([9998, 9999, 10000, 10001, 5000])  # noqa
+    lens = {'L': big(), 'D': pick([0, 3, 9999, 10000]), 'N': pick([0, 2, 6000]), 'HL': pick([0, 3, 6000, 10000]), 'S': pick([0, 5, 9999]),
+            'HS': pick([10, 12000]), 'keys': pick(['str', 'int'])}
+    lines = []
+    made = []
+    from sqv.gen import shapes as _shapes
+    unknown = [t for t in table if t not in _shapes.SHAPES]      # builtins this harness has no shape table for (new ones)
+    for i in range(1 + n(4)):
+        name = pick(unknown) if unknown and n(2) == 0 else pick(table)
+        args = []
+        for _ in range(n(4)):
+            r = n(10)
+            if name in unknown and r < 7:
+                args.append(pick(['L', 'L', 'HL', 'K2', 'K3', 'D', 'S'] + made))
+            elif r < 6:
+                args.append(pick(SWEEP_VARS + made))
+            else:
+                args.append(pick(SWEEP_SCALARS))
+        if name in ('split', 'match_all', 'match', 'match_groups') and args and args[0] == 'S' and lens['S'] >= CAP:
+            args[0] = 'HS'
+        form = n(4)
+        call = f'{name}({", ".join(args)})'
+        if form == 0 and args:
+            call = f'{args[0]} | {name}' + (f'({", ".join(args[1:])})' if args[1:] else '')
+        v = f'V{i}'
+        lines.append(f'{v} = {call}' if n(5) else call)
+        if lines[-1].startswith(v):
+            made.append(v)
+        if n(3) == 0 and made:
+            lines.append(f'{pick(made)} += {pick(made + ["L"])}')
+    return {'src': '\n'.join(lines), 'lens': lens, 'excluded': 0, 'sweep': True}
+
+
 def jobs(tier, seed):
     per = 130 if tier == 'quick' else 3200
-    return [(core.derive_seed(seed, 'c03', i), per) for i in range(16)]
+    js = [('seq', core.derive_seed(seed, 'c03', i), per) for i in range(12)]
+    js += [('sweep', core.derive_seed(seed, 'c03s', i), per * 2) for i in range(4)]
+    return js
 
 
 def run_job(job):
-    seed, n = job
+    kind, seed, n = job
     st = Stats()
 
     def check(case):
@@ -315,6 +366,23 @@ def run_job(job):
                           key=case['src'] + repr(case['lens']),
                           sample={'src': case['src'][:400], 'lens': case['lens'], 'max_len': info['max_len']})
 
+    if kind == 'sweep':
+        import smartquery.functions as Fn
+        table = sorted(Fn.FUNCTIONS)
+        calls = {}
+
+        def check_sweep(case):
+            fails, info = run_source(case['src'], make_names(case['lens']), case)
+            for line in case['src'].split('\n'):
+                for nm in table:
+                    if nm + '(' in line or '| ' + nm in line:
+                        calls[nm] = calls.get(nm, 0) + 1
+            return hyp.Result(fails, info['near_cap'], ['sweep', 'outcome:' + info['outcome']], key=case['src'] + repr(case['lens']),
+                              sample={'src': case['src'][:300], 'lens': case['lens'], 'max_len': info['max_len']})
+
+        hyp.drive(sweep_cases(table), check_sweep, st, seed=seed, max_examples=n, known_sigs=_known_sigs(), shrink_budget_s=40)
+        st.extra['sweep_calls_per_builtin'] = calls
+        return st
     hyp.drive(cases(), check, st, seed=seed, max_examples=n, known_sigs=_known_sigs(), shrink_budget_s=40)
     return st
 
